@@ -19,13 +19,14 @@ class History:
 
     def __init__(self, binary, names, tree, lock=None, structured=False, use_cache=None, base=0, maxid=None,
                  pad=0, crlf=False, unicode_prelude=False, bad=(), extra_files=None, tmp_on_other_fs=False,
-                 label=None, config_class="ok", structured_key="explicit", extensions=None, opaque=False, tmp_leftovers=False):
+                 label=None, config_class="ok", structured_key="explicit", extensions=None, opaque=False, tmp_leftovers=False, pad_mode="spread"):
         self.binary = binary
         self.names = list(names)
         self.structured = structured
         self.base = base
         self.maxid = maxid if maxid is not None else (BIGMAX if base == 0 else bl.U32MAX - base)
         self.pad, self.crlf, self.unicode_prelude = pad, crlf, unicode_prelude
+        self.pad_mode = pad_mode
         self.bad = set(bad)
         self.proj = bl.Project(structured=(structured if structured_key == "explicit" else None), use_cache=use_cache,
                                tmp_on_other_fs=tmp_on_other_fs, extensions=extensions)
@@ -152,7 +153,7 @@ class History:
     def _text(self, n):
         slots = [dict(s, ref=s["ref"]) for s in self.tree[n]]
         return bl.render_file(n, slots, self.structured, pad=self.pad, crlf=self.crlf,
-                              prelude_unicode=self.unicode_prelude)
+                              prelude_unicode=self.unicode_prelude, pad_mode=self.pad_mode)
 
     def _materialise(self, n):
         p = os.path.join(self.proj.src, n)
